@@ -15,7 +15,7 @@ EXPLANATION = (
     "built without that dependence cannot be symmetric) and on f64::is_nan of the weight (an unweighted edge must become 1, not NaN).  "
     "R-C09-3 degree_centrality depends on get_node_degree and the node count and the division is guarded by n <= 1.  R-C09-4 the "
     "self-loop correction of get_node_degree / get_node_weighted_degree depends on specs.directed inside the function itself "
-    "(get_edges_for_node lists a directed self-loop twice and an undirected one once, so one correction cannot fit both).  R-C09-9 the self-loop correction is a count / sum over the node's edges, never a truth value turned into a number.  NOT decided: "
+    "(get_edges_for_node lists a directed self-loop twice and an undirected one once, so one correction cannot fit both).  R-C09-9 the self-loop correction is a count / sum over the node's edges, never a truth value turned into a number.  R-C09-10/11: get_density's return definitions are 0, m/(n(n-1)) (directed) or 2m/(n(n-1)), and degree_centrality's products / quotients are 1/(n-1), degree*scale or degree/(n-1), as expressions over the counts.  NOT decided: "
     "the handshake identities themselves and every numeric value."
 )
 TRUSTED = ["rustc MIR construction", "over-approximated dependence (absence is definite)", "sprs TriMat::from_triplets/to_csr semantics"]
@@ -105,6 +105,104 @@ def selfloop_term_counts_every_loop(ctx, prog, flows, rid, consequence):
                             "the self-loop term of %s %s: a node with k parallel self-loops gets the correction of one, %s" % (sfx.split("::")[-1], ("is a truth value turned into a number (%s)" % ", ".join(sorted(set(from_bool)))) if from_bool else "is not computed by counting or summing the node's edges", consequence), loc_str(s_.span))
     ctx.floor(rid, "selfloop_terms", n, 2)
     return n
+
+def formula_rules(ctx, prog, flows):
+    """R-C09-10 / R-C09-11: "the density of a single-edge graph is m/(n(n-1)), doubled when undirected" and "for n >= 2
+    degree_centrality is degree/(n-1)", as far as an expression can be compared with an expression: the definitions that
+    reach the results are evaluated as arithmetic over the counts (m entries of the edge store, n nodes, a degree g) at
+    a grid of points and compared with the closed forms.  Nothing is run and no branch is decided."""
+    from engines import forms_of_def, classify_forms, matches_form
+    from props.c01 import controlling_atoms
+
+    # ---- density
+    ctx.rule("R-C09-10", "get_density returns 0, m/(n(n-1)) under specs.directed and 2m/(n(n-1)) otherwise, as expressions over the edge-store size m and the node count n")
+    b = prog.one("density::Graph::get_density")
+    fl = flows.of(b)
+    grid = [(m, n) for m in (1.0, 3.0, 7.0) for n in (2.0, 3.0, 5.0, 9.0)]
+
+    def leaf_for(pt):
+        def leaf(d):
+            if d[0] == "call":
+                last = d[1].split("::")[-1]
+                if last == "len" and desc_mentions(d, lambda x: x[0] == "place" and x[1].split(".")[-1] in ("edges", "edges_map")):
+                    return pt[0]
+                if last in ("number_of_edges",):
+                    return pt[0]
+                if last == "len" and desc_mentions(d, lambda x: (x[0] == "place" and x[1].split(".")[-1] in ("nodes_vec", "nodes_map")) or (x[0] == "call" and x[1].split("::")[-1] in ("get_all_nodes", "get_all_node_names"))):
+                    return pt[1]
+                if last == "number_of_nodes":
+                    return pt[1]
+            return None
+        return leaf
+
+    allowed = {"m/(n(n-1))": lambda pt: pt[0] / (pt[1] * (pt[1] - 1.0)), "2m/(n(n-1))": lambda pt: 2.0 * pt[0] / (pt[1] * (pt[1] - 1.0))}
+    seen, n_d, bad_any = set(), 0, False
+    for (bb, st) in b.assigns_to(0):
+        n_d += 1
+        forms = forms_of_def(fl, st, leaf_for, grid)
+        if forms is None:
+            ctx.undecided("R-C09-10", "density|%d" % n_d, "a value returned by get_density is not plain arithmetic over the edge-store size and the node count; its form is not decided", loc_str(st.span))
+            bad_any = True
+            continue
+        ok, bad = classify_forms(forms, allowed, grid)
+        seen |= ok
+        dirv = [v for (te, v, a) in controlling_atoms(fl, bb) if isinstance(te, tuple) and te[0] == "place" and te[1].endswith("specs.directed")]
+        want = None
+        if len(forms) == 1 and len(dirv) == 1 and ok - {"0"}:
+            want = "m/(n(n-1))" if dirv[0] is True else "2m/(n(n-1))"
+        wrong_arm = want is not None and want not in ok
+        bad_any = bad_any or bool(bad) or wrong_arm
+        ctx.require(not bad and not wrong_arm, "R-C09-10", "density|%d" % n_d, "get_density returns %s%s" % (" or ".join(sorted(ok)), (" when specs.directed is %s" % dirv[0]) if len(dirv) == 1 else ""),
+                    ("get_density returns %s when specs.directed is %s; the definition gives %s there" % (sorted(ok - {"0"}), dirv[0], want)) if wrong_arm else
+                    "get_density can return a value that is neither 0, m/(n(n-1)) nor 2m/(n(n-1)): at (m, n) = %s it is %s where the definition gives %s (directed) resp. %s (undirected)" % (grid[1], [round(f[1], 6) for f in bad], round(allowed["m/(n(n-1))"](grid[1]), 6), round(allowed["2m/(n(n-1))"](grid[1]), 6)), loc_str(st.span))
+    if n_d and not bad_any:
+        ctx.require(set(allowed) <= seen, "R-C09-10", "both-forms", "the directed and the undirected form are both produced", "get_density produces only %s: %s is never returned" % (sorted(seen), sorted(set(allowed) - seen)), loc_str(b.span))
+    ctx.floor("R-C09-10", "density_return_definitions", n_d, 1)
+
+    # ---- degree centrality
+    ctx.rule("R-C09-11", "degree_centrality scales the degree by 1/(n-1): every f64 product / quotient in it is 1/(n-1), degree * scale or degree/(n-1) as an expression over the node count and the degree")
+    dc = prog.one("centrality::degree::degree_centrality")
+    grid2 = [(n, g, sv) for n in (2.0, 3.0, 6.0, 11.0) for g in (1.0, 4.0) for sv in (0.37, 2.5)]
+    allowed2 = {"1/(n-1)": lambda pt: 1.0 / (pt[0] - 1.0), "degree*scale": lambda pt: pt[1] * pt[2], "degree/(n-1)": lambda pt: pt[1] / (pt[0] - 1.0)}
+    seen2, n_s, bad2_any = set(), 0, False
+    for cb in [dc] + list(prog.closures_of(dc.path)):
+        cf = flows.of(cb)
+        ups = set(cb.upvar_names()) if cb.kind == "closure" else set()
+
+        def leaf_for2(pt, _ups=ups, _cb=cb):
+            def leaf(d):
+                if d[0] == "call":
+                    last = d[1].split("::")[-1]
+                    if last == "number_of_nodes" or (last == "len" and desc_mentions(d, lambda x: x[0] == "call" and x[1].split("::")[-1] in ("get_all_nodes", "get_all_node_names"))):
+                        return pt[0]
+                    if desc_mentions(d, lambda x: x[0] == "call" and x[1].split("::")[-1] == "get_node_degree"):
+                        return pt[1]
+                if d[0] == "place" and d[1] in _ups:
+                    tys = [_cb.local_ty(l_) for l_ in _cb.locals_named(d[1])]
+                    return pt[0] if any("usize" in t_ for t_ in tys) else pt[2]
+                return None
+            return leaf
+
+        for st in cb.stmts():
+            if not (st.k == "assign" and st.rv.k == "binop" and st.rv.j["op"] in ("Mul", "Div") and st.lhs.ty == "f64"):
+                continue
+            n_s += 1
+            forms = forms_of_def(cf, st, leaf_for2, grid2)
+            if forms is None:
+                ctx.undecided("R-C09-11", "scale|%d" % n_s, "an f64 product / quotient in %s is not plain arithmetic over the node count, the degree and a captured scale; its form is not decided" % cb.short.split("::", 2)[-1], loc_str(st.span))
+                bad2_any = True
+                continue
+            ok, bad = classify_forms(forms, allowed2, grid2, zero_ok=False)
+            seen2 |= ok
+            bad2_any = bad2_any or bool(bad)
+            ctx.require(not bad, "R-C09-11", "scale|%d" % n_s, "%s computes %s" % (cb.short.split("::", 3)[-1], " / ".join(sorted(ok))),
+                        "%s computes a product / quotient that is none of 1/(n-1), degree*scale, degree/(n-1): at (n, degree, scale) = %s it is %s (1/(n-1) = %s, degree/(n-1) = %s)" % (cb.short, grid2[0], [round(f[0], 6) for f in bad], round(allowed2["1/(n-1)"](grid2[0]), 6), round(allowed2["degree/(n-1)"](grid2[0]), 6)), loc_str(st.span))
+    if n_s and not bad2_any:
+        full = ("degree/(n-1)" in seen2) or ({"1/(n-1)", "degree*scale"} <= seen2)
+        if not full:
+            ctx.undecided("R-C09-11", "scale-complete", "the products / quotients found (%s) do not add up to degree/(n-1) in a form this rule knows" % sorted(seen2), loc_str(dc.span))
+    ctx.floor("R-C09-11", "f64_products_and_quotients", n_s, 1)
+
 
 def run(ctx):
     prog = ctx.prog
@@ -245,6 +343,9 @@ def run(ctx):
 
     # ------------------------------------------------------------------ R-C09-5
     degrees_from_edge_lists(ctx, prog, flows, "R-C09-5", None, "parallel edges are not counted/summed individually")
+
+    # ------------------------------------------------------------------ R-C09-10 / R-C09-11
+    formula_rules(ctx, prog, flows)
 
     # ------------------------------------------------------------------ R-C09-9
     selfloop_term_counts_every_loop(ctx, prog, flows, "R-C09-9", "so the sum of the degrees is no longer twice the number of edges")
